@@ -485,6 +485,21 @@ def unary_stream(R, alg, d, vs, tier):
             want = e if nrm == 0 else [float(x) / nrm for x in e]
             R.op(dict(base, op="normalized"), lambda: p.normalized(), [p], dict(common_exp, v=want, scale=1.0 if nrm else mag),
                  ("normalized", [tok]), selfp=p, nontrivial=nz, branch="normalized-zero" if nrm == 0 else "normalized")
+            # two-step histories: the length of a RESULT is the norm of the result's own vector (no stale state), and
+            # asking twice gives the same answer
+            for cname, mk in (("normalized", lambda: p.normalized()), ("copy", lambda: p.copy()), ("neg", lambda: -p),
+                              ("half", lambda: p * 0.5), ("twice-normalized", lambda: p.normalized().normalized())):
+                try:
+                    q = mk()
+                    got1, got2 = float(q.length()), float(q.length())
+                except Exception as ex_:  # noqa: BLE001
+                    ctx.fail(dict(base, op="length-of-result", chain=cname), f"{type(ex_).__name__}: {ex_}"[:100], "a length",
+                             where="length-of-result")
+                    continue
+                want_len = math.sqrt(sum(float(x) * float(x) for x in q.v))
+                ctx.count(f"chain {alg} {d} {base['self']} {vname} {cname}", nontrivial=nz, branch="length-of-result")
+                if abs(got1 - want_len) > 1e-12 * max(1.0, want_len) or got1 != got2:
+                    ctx.fail(dict(base, op="length-of-result", chain=cname), [got1, got2], want_len, where="length-of-result")
             # inverses
             for sname, fn in (("two", lambda: ~p), ("left", lambda: p.linv()), ("right", lambda: p.rinv())):
                 if alg == "vtb" and sname == "left":
